@@ -1,6 +1,6 @@
 (* C17 — Galois-field and Reed-Solomon utilities are algebraically correct.
    Property theorems only; proofs in proofs/GFP.v, PolyP.v, RSP.v, C17P.v. *)
-From Verif Require Import Prelude GFM TabGF GFSpec GFP PolyP PolyCoefP RSP C17P.
+From Verif Require Import Prelude GFM TabGF GFSpec GFP PolyP PolyCoefP RSP RSUniqueP C17P.
 
 (* The run-time tables of every field the library constructs (dumped from
    /repo by gotab: QR, DataMatrix, Aztec 4/6/8/10/12-bit) are exactly what the
@@ -59,8 +59,7 @@ Print Assumptions C17_poly_division.
    earlier requests on the same encoder (any degrees, any order): Encode never
    panics, returns k symbols of the field, the same symbols a fresh encoder
    returns, and data ++ ecc evaluates to zero at alpha^base .. alpha^(base+k-1).
-   PARTIAL with respect to "exactly the symbols": uniqueness of such check
-   symbols (degree < k with k distinct roots => zero) is not proved. *)
+   C17_check_symbols_unique below shows these are exactly THE symbols. *)
 Theorem C17_reed_solomon : forall f, In f library_fields ->
   forall history data k, Forall (request_ok f) history -> request_ok f (data, k) ->
   exists cache cache' ecc,
@@ -72,6 +71,19 @@ Theorem C17_reed_solomon : forall f, In f library_fields ->
        poly_eval f (data ++ ecc) (tget (gf_alog f) (gf_base f + i)) = 0.
 Proof. exact rs_correct. Qed.
 Print Assumptions C17_reed_solomon.
+
+(* uniqueness: any k field symbols that make data ++ check vanish at the k distinct
+   points alpha^base .. alpha^(base+k-1) (base + k <= size - 1) are the ones Encode
+   returns (a polynomial of degree < k with k distinct roots in a field is zero) *)
+Theorem C17_check_symbols_unique : forall f, In f library_fields ->
+  forall data k ecc ecc', 1 <= k -> gf_base f + k <= gf_size f - 1 ->
+  Forall (in_field f) data -> Forall (in_field f) ecc -> Forall (in_field f) ecc' ->
+  zlength ecc = k -> zlength ecc' = k ->
+  (forall i, 0 <= i < k -> poly_eval f (data ++ ecc) (tget (gf_alog f) (gf_base f + i)) = 0) ->
+  (forall i, 0 <= i < k -> poly_eval f (data ++ ecc') (tget (gf_alog f) (gf_base f + i)) = 0) ->
+  ecc = ecc'.
+Proof. exact rs_unique. Qed.
+Print Assumptions C17_check_symbols_unique.
 
 (* non-vacuity *)
 Example C17_nonvacuous_field : In (field_of_dump gfdump_qr) library_fields.
